@@ -309,12 +309,16 @@ class FcpV2Transformer(Transformer):
         """Parse an unsigned type."""
         if int(str(args[0])[1:]) == 0:
             return error(f"Type '{args[0]}' has no bits.")
+        if int(str(args[0])[1:]) > 64:
+            return error(f"Type '{args[0]}' has more than 64 bits.")
         return Ok(UnsignedType(str(args[0])))
 
     def signed_type(self, args: List[str]) -> Result[SignedType, FcpError]:
         """Parse a signed type."""
         if int(str(args[0])[1:]) == 0:
             return error(f"Type '{args[0]}' has no bits.")
+        if int(str(args[0])[1:]) > 64:
+            return error(f"Type '{args[0]}' has more than 64 bits.")
         return Ok(SignedType(str(args[0])))
 
     def float_type(self, args: List[str]) -> Result[FloatType, FcpError]:
